@@ -1,9 +1,11 @@
 """C02 — the pattern parser agrees with RDKit on plain SMILES, atom index for atom index.
 
 Three-way comparison on non-canonical RDKit writings of generated molecules:
-    `fgutils.parse.parse(s)`  vs  `fgutils.rdkit.mol_smiles_to_graph(s)`  vs  Lean `smilesDenote`
-(and the Lean model parser).  A disagreement between RDKit and `smilesDenote` on an in-contract
-string is a broken assumption (exit 2); between the parser and `smilesDenote` a violation — or a
+    `fgutils.parse.parse(s)`  vs  the molecule RDKit builds from s, read with RDKit alone  vs  Lean `smilesDenote`
+(and the Lean model parser).  `fgutils.rdkit.mol_smiles_to_graph(s)` (the property's second observation point) must
+equal the RDKit-alone reading: a difference is a VIOLATION with the string as replay (a defect of `mol_to_graph`
+makes parse(s) and mol_smiles_to_graph(s) disagree for every user).  A disagreement between RDKit alone and
+`smilesDenote` on an in-contract string is a broken assumption (exit 2); between the parser and `smilesDenote` a violation — or a
 known finding, classified per case:
   K1  the string has an `S` atom directly followed by an aromatic `n` (lexes as tin) AND implementation == model;
   K5  the string has a bond symbol directly before a ring-OPENING digit (`C=1CCC1`: SMILES/RDKit put the bond
@@ -554,7 +556,26 @@ def rdkit_view(s):
     from fgutils.rdkit import mol_smiles_to_graph
     g = mol_smiles_to_graph(s)
     mol = Chem.MolFromSmiles(s)
-    return g, mol
+    return g, mol, rdkit_direct_graph(mol)
+
+
+def rdkit_direct_graph(mol):
+    """the molecule RDKit built, read with RDKit alone (no code of the library): the reference of the property.
+    `fgutils.rdkit.mol_smiles_to_graph` - the property's second observation point and the reader every user of
+    the library compares with - must give the same graph; a difference there is reported as a violation with
+    the string as replay (ORACLE_SIDE), not as a broken assumption of the machinery."""
+    import networkx as nx
+    from rdkit import Chem
+    order = {Chem.BondType.SINGLE: 1, Chem.BondType.DOUBLE: 2, Chem.BondType.TRIPLE: 3, Chem.BondType.AROMATIC: 1.5}
+    g = nx.Graph()
+    for a in mol.GetAtoms():
+        g.add_node(a.GetIdx(), symbol=a.GetSymbol())
+    for b in mol.GetBonds():
+        g.add_edge(b.GetBeginAtomIdx(), b.GetEndAtomIdx(), bond=order[b.GetBondType()])
+    return g
+
+
+ORACLE_SIDE = []   # (smiles, mol_smiles_to_graph view, RDKit-alone view) where the two differ on an in-domain string
 
 
 def module_level_history(rng, s):
@@ -635,9 +656,11 @@ def make_case(r, s, origin, tags=(), reused=None, module_history=False, replay_m
         rd_can = rd
         r.count("filter:rdkit_rejects")
     else:
-        g, mol = rd
-        rd_can = canon_graph(g)
+        g, mol, g_direct = rd
+        lib_can = canon_graph(g)
         # mol_to_graph gives nodes only a symbol
+        lib_can[1] = [[n[0], n[1], None, None, None] for n in lib_can[1]]
+        rd_can = canon_graph(g_direct)
         rd_can[1] = [[n[0], n[1], None, None, None] for n in rd_can[1]]
         atoms = chain_atoms(chain)
         in_contract = mol.GetNumAtoms() == len(atoms) and all(
@@ -647,6 +670,8 @@ def make_case(r, s, origin, tags=(), reused=None, module_history=False, replay_m
             r.count("filter:out_of_contract(aromaticity re-perceived or non-aromatic bond between aromatic atoms)")
     impl_can = impl if isinstance(impl, ImplError) else canon_graph(impl)
     in_domain = in_contract and not hard_exc and not isinstance(rd, ImplError)
+    if in_domain and lib_can != rd_can:
+        ORACLE_SIDE.append((s, lib_can, rd_can))
     req = [Atom("C02"), Atom("check"), enc_chain(chain), S(s),
            [Atom("raised"), Atom(rd_can.kind)] if isinstance(rd_can, ImplError) else rd_can]
     st = c01.chain_stats(chain)
@@ -845,7 +870,9 @@ def run(tier, seed):
     }
     r.assumptions = r.assumptions + [
         "RDKit contract (trusted, exercised on every case): on strings where sanitisation does not re-perceive aromaticity, "
-        "mol_smiles_to_graph(s) = smilesDenote(s) up to c -> C; disagreements in this run: %d" % len(broken_assumption),
+        "the molecule RDKit builds from s, read with RDKit alone (harness/c02.py: rdkit_direct_graph, no library code) = smilesDenote(s) up to c -> C; "
+        "disagreements in this run: %d; fgutils.rdkit.mol_smiles_to_graph(s) is compared with that reading on every in-domain string "
+        "(differences in this run: %d, each a violation)" % (len(broken_assumption), len(ORACLE_SIDE)),
         "molecules are generated without stereo centres, charges or isotopes; writings containing [ ] % @ / \\ + are filtered (counted)",
         "out of domain (counted in out_of_domain_counts): adjacent ring digits (C12 is ring '12' for FGUtils; excluded by the property statement), "
         "strings on which RDKit re-perceives aromaticity (Kekule forms), strings RDKit rejects",
@@ -853,6 +880,9 @@ def run(tier, seed):
         "the writing with the symbol moved to the closing digit satisfies the specification; anything else is a violation",
         "everything assumed for C01 (lexer/networkx models)",
     ]
+    r.extra_cov["mol_smiles_to_graph_vs_rdkit_alone_differences"] = len(ORACLE_SIDE)
+    if ORACLE_SIDE:
+        report_oracle_side(r)
     if (broken_assumption or inconsistent) and not (r.spec_failures or r.corr_failures):
         o = broken_assumption[0] if broken_assumption else None
         p = r.write_replay("machinery", "broken_assumption", r.outcome_payload(o) if o else {"note": "domain mismatch"})
@@ -879,11 +909,29 @@ def run(tier, seed):
                     "every implementation output; C02.opening_bond_differs proves the K5 divergence for the model")
 
 
+def report_oracle_side(r):
+    s, lib_can, rd_can = min(ORACLE_SIDE, key=lambda t: len(t[0]))
+    p = r.write_replay("failing-input", "oracle_side", {
+        "meta": {"smiles": s, "oracle_side": True},
+        "what": "fgutils.rdkit.mol_smiles_to_graph(s) is not the molecule RDKit builds from s (atoms in order, bonded pairs, orders; "
+                "aromatic = 1.5), so parse(s) and mol_smiles_to_graph(s) cannot both agree with RDKit",
+        "mol_smiles_to_graph": lib_can, "rdkit_alone": rd_can, "strings_affected_in_this_run": len(ORACLE_SIDE),
+        "reproduce": "python -c \"from fgutils.rdkit import mol_smiles_to_graph as f; g=f(%r); print(g.nodes(data=True), g.edges(data=True))\"" % s})
+    r.violation_lines.append("VIOLATION property=C02 replay=%s" % p)
+
+
 def replay(path):
     from common import Driver, parse_sx, sx_of
     d = json.load(open(path))
     m = d.get("meta") or {}
     s = m.get("smiles")
+    if m.get("oracle_side"):
+        g, mol, g_direct = rdkit_view(s)
+        a, b = canon_graph(g), canon_graph(g_direct)
+        a[1] = [[n[0], n[1]] for n in a[1]]; b[1] = [[n[0], n[1]] for n in b[1]]
+        print("smiles: %r\nmol_smiles_to_graph: %s\nRDKit alone        : %s" % (s, a, b))
+        print("mol_smiles_to_graph vs RDKit: %s" % ("DIFFERS" if a != b else "equal"))
+        return 1 if a != b else 0
     if s is None:
         print("replay file has no input: %s" % d.get("theorem_or_correspondence"))
         return 1
